@@ -258,6 +258,8 @@ def sample(ctx, budget=1.0, hint=None, broken=None):
             fail('%s.translated' % kind, 'translated(z).point(t) != point(t)+z', {'seg': desc, 'z': repr(z)}, repr(tr), 'shifted curve',
                  'svgpathtools.%s.translated(%r).point(0.3)' % (desc, z))
         deg = r.choice([90, 180, -45, 30.5, 725.0, r.uniform(-360, 360)])
+        if kind == 'arc' and r.random() < 0.25:
+            deg = r.choice([-seg.rotation, -seg.rotation, 360 - seg.rotation, 180 - seg.rotation])      # turns the arc's own axes onto the coordinate axes
         org = r.choice([None, complex(r.uniform(-3, 3), r.uniform(-3, 3)) * scale])
         ro = seg.rotated(deg, origin=org)
         o_eff = org if org is not None else (seg.center if kind == 'arc' else seg.point(0.5))
